@@ -131,6 +131,8 @@ func GenProg(r *Rng, cfg ProgCfg) *Prog {
 	}
 	p.MapLower = r.Chance(1, 5)
 	p.LateMode = r.Chance(1, 4)
+	p.LateUnknown = r.Chance(1, 6)
+	p.LateReqOrder = p.ReqOrder && r.Chance(1, 4)
 	if cfg.Help && r.Chance(2, 3) {
 		p.Help = "help"
 		if r.Chance(1, 4) {
